@@ -401,6 +401,26 @@ func driveFuncs(c *Ctx, b *roaring.Bitmap, m *ISet) {
 				c.Fail(dir+"/count", "%s yielded %d values before break at index %d", dir, k, stopAt)
 			}
 			c.Eval(k + 1)
+			// the same sequence value is ranged over a second time: it must enumerate from the beginning again
+			if small && !c.Failed() {
+				j := uint64(0)
+				for x := range seq {
+					w, ok := m.Select(j)
+					if dir == "Backward" {
+						w, ok = m.Select(card - 1 - j)
+						ok = ok && j < card
+					}
+					if !ok || uint64(x) != w {
+						c.Fail(dir+"/second-range-over-the-same-sequence", "ranging a second time over the same %s sequence (first traversal stopped at index %d) yielded %d at index %d, want %d", dir, stopAt, x, j, w)
+						return
+					}
+					j++
+				}
+				if j != card {
+					c.Fail(dir+"/second-range-over-the-same-sequence", "ranging a second time over the same %s sequence yielded %d values, cardinality %d", dir, j, card)
+				}
+				c.Eval(int64(j))
+			}
 		})
 	}
 	// Ranges
@@ -412,7 +432,24 @@ func driveFuncs(c *Ctx, b *roaring.Bitmap, m *ISet) {
 			stopAt = r.Intn(len(ivs))
 		}
 		k := 0
-		for s, e := range b.Ranges() {
+		rseq := b.Ranges()
+		defer func() {
+			if c.Failed() || len(ivs) > 70000 {
+				return
+			}
+			j := 0
+			for s, e := range rseq {
+				if j >= len(ivs) || uint64(s) != ivs[j].Lo || e != ivs[j].Hi+1 {
+					c.Fail("Ranges/second-range-over-the-same-sequence", "ranging a second time over the same Ranges sequence yielded [%d,%d) at index %d", s, e, j)
+					return
+				}
+				j++
+			}
+			if j != len(ivs) {
+				c.Fail("Ranges/second-range-over-the-same-sequence", "ranging a second time over the same Ranges sequence yielded %d intervals, want %d", j, len(ivs))
+			}
+		}()
+		for s, e := range rseq {
 			if k >= len(ivs) {
 				c.Fail("Ranges/extra", "Ranges yielded [%d,%d) after all %d maximal intervals", s, e, len(ivs))
 				return
@@ -543,7 +580,34 @@ func driveUnset(c *Ctx, b *roaring.Bitmap, m *ISet) {
 		stopAt := int64(r.Intn(3000))
 		cur := mn
 		k := int64(0)
-		for x := range roaring.Unset(b, uint32(mn), uint32(mx)) {
+		useq := roaring.Unset(b, uint32(mn), uint32(mx))
+		defer func() {
+			// the same sequence value ranged over a second time starts at the beginning of the window again
+			if c.Failed() {
+				return
+			}
+			cur2 := mn
+			for x := range useq {
+				nx, has := uint64(0), false
+				if cur2 <= mx {
+					nx, has = m.NextAbsent(cur2, mx)
+				}
+				if !has || uint64(x) != nx {
+					c.Fail("Unset/second-range-over-the-same-sequence", "ranging a second time over the same Unset(%d,%d) sequence yielded %d, want %d (has=%v)", mn, mx, x, nx, has)
+					return
+				}
+				cur2 = nx + 1
+				if cur2-mn > 5000 {
+					return
+				}
+			}
+			if cur2 <= mx {
+				if nx, has := m.NextAbsent(cur2, mx); has && nx-mn <= 5000 {
+					c.Fail("Unset/second-range-over-the-same-sequence", "ranging a second time over the same Unset(%d,%d) sequence ended early: %d is absent from the bitmap", mn, mx, nx)
+				}
+			}
+		}()
+		for x := range useq {
 			nx, has := uint64(0), false
 			if cur <= mx {
 				nx, has = m.NextAbsent(cur, mx)
